@@ -455,6 +455,10 @@ def data_paths(ck, rng, quick):
                             if isinstance(o, str) and o.startswith('exc '):
                                 if not o.startswith('exc TagCommandError'):
                                     ck.count('data-path-undocumented-exception:' + o[4:])
+                                    # a response whose MAC does not verify must surface as None / TagCommandError, never
+                                    # as an internal error of the reader (repaired by fix 72d9c42)
+                                    ck.violation('data-path-internal-error:%s:%s' % (path, o[4:].split(':')[0].split()[0]),
+                                                 'a tampered response makes %s raise an internal error instead of returning None' % path, case)
                                 continue
                             if path == 'dump' or o is None:
                                 continue          # dump() reads without MAC by design; None = nothing handed out
@@ -580,7 +584,7 @@ def main():
         muts = []
         for j, r in enumerate(rsps):
             bits = [(i, k) for i in range(len(r)) for k in range(8)]
-            if not every_bit:
+            if not every_bit or (quick and len(r) <= 12):      # quick tier: write acknowledgements are sampled
                 bits = rng.sample(bits, min(len(bits), nsample))
             for i, k in bits:
                 m = bytearray(len(r))
